@@ -524,6 +524,7 @@ func runC14(c *Ctx) {
 func ConstIntOK(v ssa.Value) (int64, bool) { return ConstInt(v) }
 
 var c14Canaries = []Canary{
+	{Name: "r4-header-trimmed", ExpectKey: "C14.R1#request-header", Edits: []Edit{{File: "git/filter_process_scanner.go", Find: "req.Header[v[0]] = v[1]", Repl: "req.Header[v[0]] = strings.TrimSpace(v[1])"}}},
 	{Name: "clean-no-first-status", ExpectKey: "C14.R1#exchange:clean", Edits: []Edit{{File: "commands/command_filter_process.go", Find: "		case \"clean\":\n			s.WriteStatus(statusFromErr(nil))\n", Repl: "		case \"clean\":\n"}}},
 	{Name: "status-after-content", ExpectKey: "C14.R1#delayedSmudge", Edits: []Edit{{File: "commands/command_smudge.go", Find: "		if err := s.WriteStatus(statusFromErr(nil)); err != nil {\n			return 0, false, nil, err\n		}\n\n		n, err := tools.Spool(to, pbuf, cfg.TempDir())\n		if err != nil {\n			return n, false, nil, errors.Wrap(err, perr.Error())\n		}", Repl: "		n, err := tools.Spool(to, pbuf, cfg.TempDir())\n		if err != nil {\n			return n, false, nil, errors.Wrap(err, perr.Error())\n		}\n		if err := s.WriteStatus(statusFromErr(nil)); err != nil {\n			return 0, false, nil, err\n		}"}}},
 	{Name: "flush-twice", ExpectKey: "C14.R1#exchange", Edits: []Edit{{File: "commands/command_filter_process.go", Find: "			status = statusFromErr(err)\n		}\n\n		s.WriteStatus(status)", Repl: "			status = statusFromErr(err)\n			w.Flush()\n		}\n\n		s.WriteStatus(status)"}}},
